@@ -507,7 +507,7 @@ META = {
         "technique": "TLA+ spec model-checked with TLC; TLC-enumerated table replayed on the real runtime (E4/E2); TLC judging recorded run-time types (E3)",
         "design_ref": "DESIGN.md section 5 C29", "engine": "E4 table + E3 judge"},
     "C48": {
-        "level_text": "Events.tla models event declarations (ordered typed fields) and nine kinds of emit site (emit statement through an imported contract, event declared by the script, pre-, post- and interface-inherited conditions, default destruction events with literal / self.f / self.s.v default arguments, nested destruction, attachment destruction with base.f defaults, destruction of an array) and the payloads the host must receive; TLC explores delivery in every order and checks that every payload has the declared fields in declaration order and that exactly the expected events are delivered. The ~640 (thorough ~3 500) configurations over 23 field specs are rendered to Cadence programs and executed on interpreter and VM; every payload handed to EmitEvent is compared with the model: type ID, field names and order, declared field types, values, dynamic type of each value.",
+        "level_text": "Events.tla models event declarations (ordered typed fields) and ten kinds of emit site (emit statement through an imported contract, emit with reference-typed arguments where one reference value occurs in several fields and container elements, event declared by the script, pre-, post- and interface-inherited conditions, default destruction events with literal / self.f / self.s.v default arguments, nested destruction, attachment destruction with base.f defaults, destruction of an array) and the payloads the host must receive; TLC explores delivery in every order and checks that every payload has the declared fields in declaration order and that exactly the expected events are delivered. The ~830 (thorough ~4 200) configurations over 31 field specs (23 plain, 8 reference-typed) are rendered to Cadence programs and executed on interpreter and VM; every payload handed to EmitEvent is compared with the model: type ID, field names and order, declared field types, values, dynamic type of each value.",
         "level_note": "Bounded: events of 1-3 fields over 23 (type, value) specs; the rendering of configurations to source text is trusted Go code. Order among the events of one destroy statement is deliberately not judged.",
         "technique": "TLA+ spec model-checked with TLC; TLC-enumerated configurations with predicted payloads replayed on the real runtime (E2/E4)",
         "design_ref": "DESIGN.md section 5 C48", "engine": "E2 replay"},
